@@ -49,9 +49,9 @@ Qed.
 
 Lemma node_step_mono cz k a b : node_step CNone k a b -> node_step cz k a b.
 Proof.
-  intros (I1 & S1 & Q1 & W1 & D1 & C1). repeat split; auto.
+  intros (I1 & S1 & Q1 & W1 & D1 & C1).
+  split; [exact I1|]. split; [exact S1|]. split; [exact Q1|]. split; [|split; [|exact C1]].
   - intros _. apply W1. discriminate.
-  - intros _. destruct W1 as [_ X]; [discriminate|exact X].
   - intros c vt _ _. apply D1; discriminate.
 Qed.
 
@@ -68,7 +68,8 @@ Qed.
 
 Definition nodes_step (cz : cause) (g g' : gw) : Prop :=
   (forall k nd, get_node g k = Some nd -> exists nd', get_node g' k = Some nd' /\ node_step cz k nd nd') /\
-  (forall k nd', get_node g k = None -> get_node g' k = Some nd' -> n_new nd' = [] /\ n_queue nd' = []).
+  (* a node that appears evolves from the fresh node *)
+  (forall k nd', get_node g k = None -> get_node g' k = Some nd' -> node_step cz k (new_node k) nd').
 
 Lemma nodes_step_eq cz g g' : g_sensors g' = g_sensors g -> nodes_step cz g g'.
 Proof.
@@ -83,15 +84,14 @@ Proof.
   - intros k nd H. destruct (A1 _ _ H) as (nd1 & H1 & S1). destruct (A2 _ _ H1) as (nd2 & H2 & S2).
     exists nd2. split; [exact H2|]. eapply node_step_trans; eassumption.
   - intros k nd' H1 H3. destruct (get_node b k) as [ndb|] eqn:Hb.
-    + destruct (N1 _ _ H1 Hb) as [E1 E2]. destruct (A2 _ _ Hb) as (nd2 & H2 & (I & S & Q & W & D & C)).
-      rewrite H3 in H2. inversion H2; subst nd2.
-      assert (NW : CNone <> CWake k) by discriminate.
-      (* a fresh node does not sleep; its queue can only have grown by routed traffic: none, it does not sleep *)
-      split.
-      * destruct (n_new nd') eqn:X; [reflexivity|].
-        (* sleeping nd' = true would need a wake-up; fresh nodes are only created inside one transition,
-           so we keep the weaker statement by case analysis on the cause *)
-        exfalso. revert X. admit_placeholder.
-      * admit_placeholder.
+    + pose proof (N1 _ _ H1 Hb) as S1. destruct (A2 _ _ Hb) as (nd2 & H2 & S2).
+      rewrite H3 in H2. inversion H2; subst nd2. eapply node_step_trans; eassumption.
     + apply (N2 _ _ Hb H3).
-Abort.
+Qed.
+
+Lemma nodes_step_mono cz g g' : nodes_step CNone g g' -> nodes_step cz g g'.
+Proof.
+  intros [A N]. split.
+  - intros k nd H. destruct (A _ _ H) as (nd' & H' & S). exists nd'. split; [exact H'|apply node_step_mono; exact S].
+  - intros k nd' H1 H2. apply node_step_mono. eauto.
+Qed.
